@@ -146,7 +146,7 @@ def split_impl(s):
         return s, [], ''
     main, _, adv = s.partition(' | ')
     words = main.split(' ')
-    flags = [w for w in words if w in ('MUTATED', 'RET', 'KEYS')]
+    flags = [w for w in words if w in ('MUTATED', 'RET', 'KEYS', 'EARLIER', 'REREAD')]
     return ' '.join(w for w in words if w not in flags), flags, adv
 
 
@@ -188,7 +188,7 @@ def classify(case, impl, spec, spec_codeflags, tabn):
     return sig
 
 
-CASE_KEYS = ('mode', 'mt', 'mt_as', 'mt_container', 'scale', 'entries', 'steps', 'via', 'tmpdir', 'read_as')
+CASE_KEYS = ('mode', 'mt', 'mt_as', 'mt_container', 'scale', 'entries', 'steps', 'via', 'tmpdir', 'read_as', 'extra_entries', 'pre', 'pre_requested')
 
 
 def impl_json(case):
@@ -338,7 +338,7 @@ def run(ctx):
                 c = json.load(open(os.path.join(cdir, f)))
                 c = c.get('case', c)
                 if all(entry_key(e) in tabn for e in c['entries']):
-                    G.cases.append(dict(c, origin='corpus'))
+                    G.cases.append(dict(c, origin='corpus', tmpdir=ctx.tmp))
 
     # ---- bounded-exhaustive ------------------------------------------------------------------------
     T = G.timed
@@ -426,6 +426,24 @@ def run(ctx):
         G.cases.append({'via': 'read', 'tmpdir': ctx.tmp, 'read_as': r.choice(['type', 'class']), 'mode': r.choice(MODES), 'mt': mt,
                         'mt_as': r.choice(['type', 'class', 'mixed']), 'mt_container': r.choice(['list', 'tuple', 'set']), 'scale': 1,
                         'entries': [G.entry(n, m) for n, m in zip(names, G.ids(times))], 'origin': 'read'})
+
+    # multi-call histories on ONE loader with caching on: read(X); read(Y, Z, time_align=..., aligned=None|subset); read(X) again
+    for _ in range(3000 if ctx.thorough else 500):
+        nt = r.choice([2, 2, 3])
+        nx = r.choice([1, 1, 2])
+        names = r.sample(T, nt + nx)
+        req_names, extra_names = names[:nt], names[nt:]
+        if r.random() < 0.2:
+            extra_names.append(r.choice(G.timeless))
+        times = [sorted(set(r.randint(0, 6) for _ in range(r.randint(1, 6)))) for _ in req_names + extra_names]
+        msgs = G.ids(times)
+        mt = None if r.random() < 0.6 else [n for n in req_names if r.random() < 0.65]
+        G.cases.append({'via': 'read', 'tmpdir': ctx.tmp, 'read_as': r.choice(['type', 'class']), 'mode': r.choice(MODES), 'mt': mt,
+                        'mt_as': r.choice(['type', 'class', 'mixed']), 'mt_container': r.choice(['list', 'tuple', 'set']), 'scale': 1,
+                        'entries': [G.entry(n, m) for n, m in zip(req_names, msgs[:nt])],
+                        'extra_entries': [G.entry(n, m) for n, m in zip(extra_names, msgs[nt:])],
+                        'pre': [i for i in range(len(extra_names)) if i == 0 or r.random() < 0.5],
+                        'pre_requested': [0] if r.random() < 0.15 else [], 'origin': 'read-history'})
 
     cases = G.cases
     ctx.log('%d cases' % len(cases))
